@@ -8,12 +8,16 @@
     false for [false], see C02_unrepaired_variant_refuted; the pinned [C02_source_*] theorems fail as well).
     Properties/C02.v states its headline about [run src_fx …]; the correspondence evaluates [src_run_case]. *)
 From Coq Require Import NArith List String.
-From TV Require Import Dispatch.Model Dispatch.Shape.
+From TV Require Import Dispatch.Model Dispatch.Shape Dispatch.Reentry.
 From TVGen Require Import Gen_dispatch.
 Import ListNotations.
 Local Open Scope N_scope.
 
 Definition src_fx : bool := fx_or_unfixed gen_dispatch.
+(** Is `can_enter` set back when a collector callback unwinds?  (get_default_slow's guard as read; Dispatch/Reentry.v) *)
+Definition src_unwind_resets : bool := unwind_resets_of_shape gen_dispatch.
+Definition src_xrun_case (smax : N) (fs : list fspec) (h : list xop) : list (list N) :=
+  xrun_case src_fx src_unwind_resets smax fs h.
 Definition src_run_case (smax : N) (fs : list fspec) (h : list op) : list (list N) := run_case src_fx smax fs h.
 (** The facts the drivers print next to the tie (evaluated by vm_compute on every run). *)
 Definition src_summary : list N :=
